@@ -318,6 +318,21 @@ def _job_groestl(cfg, binp, bits, b, nblocks_target, rng_seed):
     return True, "", "", 2 * len(ops)
 
 
+SINGLE_N = 2 ** 29 + 4096 + 5      # the whole-block run exceeds 2^29 bytes for every buffered prefix
+
+
+def single_expect(fam, b, w, tot):
+    """exact counter (as printed by `getctr`) after absorbing `tot` bytes, by the C17 theorems"""
+    if fam == "blake":
+        T = 8 * b * (tot // b)
+        return "%d %d" % (T % 2 ** w, T // 2 ** w)
+    if fam == "jh":
+        return str(tot)
+    if fam == "skein":
+        return "%d %d" % (b * ((tot - 1) // b), 48 << 56)
+    return str(tot // b)
+
+
 def _job_single_call(family, cfg, binp, new_arg, b, prefix, N, seed, expect_ctr):
     """One HUGE `update` call (N bytes in a single slice) on the real code must leave the counter the
     theorems predict and give the same digest as the same bytes fed in 1 MiB calls (chunking
@@ -395,7 +410,7 @@ def extra_C17(pid, tier, seed):
                  _job_inject("skein", cfg, binp, variant, nb, N, s, rs, exp, True)), N, "Skein " + bname)
         # ONE update call with more than 2^29 bytes (thorough: more than 2^32 bytes as well): length
         # arithmetic in narrower integer types inside `update` shows here and nowhere else
-        sizes = [2 ** 29 + 5] + ([2 ** 32 + 5] if thorough else [])
+        sizes = [SINGLE_N] + ([2 ** 32 + 4096 + 5] if thorough else [])
         for Nbig in sizes:
             singles = []
             if thorough or cfg == "std-release":
@@ -405,16 +420,7 @@ def extra_C17(pid, tier, seed):
             singles += [("groestl", str(bits), b, 0) for (bits, b) in (GROESTL if thorough else GROESTL[1:2])]
             for (fam, arg, b, w) in singles:
                 prefix = rng.below(b)
-                tot = prefix + Nbig
-                if fam == "blake":
-                    T = 8 * b * (tot // b)
-                    exp = "%d %d" % (T % 2 ** w, T // 2 ** w)
-                elif fam == "jh":
-                    exp = str(tot)
-                elif fam == "skein":
-                    exp = "%d %d" % (b * ((tot - 1) // b), 48 << 56)
-                else:
-                    exp = str(tot // b)
+                exp = single_expect(fam, b, w, prefix + Nbig)
                 add("%s-%s %s single update of %d bytes" % (fam, arg, cfg, Nbig),
                     (lambda fam=fam, cfg=cfg, binp=binp, arg=arg, b=b, prefix=prefix, Nbig=Nbig, exp=exp, s=rng.below(1000):
                      _job_single_call(fam, cfg, binp, arg, b, prefix, Nbig, s, exp)), 2 * Nbig, "single update > 2^%d bytes" % (29 if Nbig < 2 ** 32 else 32))
